@@ -718,7 +718,7 @@ func genGunCancel(r *rand.Rand, inst int) string {
 }
 
 // genGunHTML (round 6, seed C15-r6-2): the html templater (`templater: {type: html}`; `tm=t`: the text templater
-// configured explicitly) with templates that are expensive to parse (B<k>: a dead branch of k*1000 actions) in the
+// configured explicitly) with templates that are expensive to parse (B<k>: a dead branch of k*200 actions) in the
 // URI, a header and the body of several steps, shot by 2–8 instances whose FIRST shots overlap: every instance meets
 // every template slot for the first time at about the same moment. Every step is valid: none may be reported failed.
 func genGunHTML(r *rand.Rand, inst int) string {
